@@ -63,6 +63,36 @@ func vfC06Setup(t *testing.T, proto []string) (p *vfC06Peers, err error) {
 	return &vfC06Peers{active: active, passive: passive, srv: srv, remote: u.String()}, nil
 }
 
+// vfC06TB lets the repository's asserting wait helper report a timeout as an error instead of
+// aborting the outer test.
+type vfC06TB struct{ testing.TB }
+
+func (f vfC06TB) Helper()                           {}
+func (f vfC06TB) Errorf(format string, args ...any) {}
+func (f vfC06TB) Error(args ...any)                 {}
+func (f vfC06TB) Fail()                             {}
+func (f vfC06TB) FailNow()                          { panic(kit.InconclusiveErr{Msg: "cache catch-up wait expired"}) }
+func (f vfC06TB) Fatalf(format string, args ...any) { panic(kit.InconclusiveErr{Msg: fmt.Sprintf(format, args...)}) }
+func (f vfC06TB) Fatal(args ...any)                 { panic(kit.InconclusiveErr{Msg: fmt.Sprint(args...)}) }
+
+// waitCaughtUp waits until both peers' caching feeds have processed every sequence allocated so far.
+// "Once replication has caught up" presupposes that the local writes are visible to the changes feed
+// the replicator reads; a one-shot run started before that legitimately replicates nothing.
+func (p *vfC06Peers) waitCaughtUp(t *testing.T) (err error) {
+	defer func() {
+		if r := recover(); r != nil {
+			if ie, ok := r.(kit.InconclusiveErr); ok {
+				err = ie
+				return
+			}
+			panic(r)
+		}
+	}()
+	p.active.GetDatabase().WaitForPendingChanges(vfC06TB{t})
+	p.passive.GetDatabase().WaitForPendingChanges(vfC06TB{t})
+	return nil
+}
+
 func (p *vfC06Peers) Close() {
 	defer func() { _ = recover() }()
 	p.active.Close()
@@ -258,6 +288,28 @@ func vfC06StripBody(m map[string]any) map[string]any {
 	return out
 }
 
+// vfC06ResurrectedOnLostTombstone recognises the second symptom of the same root cause: X's live
+// current revision descends from a tombstone D that Y has never received (D is the tombstone the
+// delete-wins resolution put on X's losing branch; Y rejected that branch as a conflict, so a later
+// local edit on X, which extends D because D out-generations the pulled tombstone, can never be pushed).
+func vfC06ResurrectedOnLostTombstone(x, y vfC06DocState) bool {
+	if !x.Exists || !y.Exists || x.Deleted {
+		return false
+	}
+	for id, n := x.Revs[x.Rev].Parent, 0; id != "" && n < 1000; id, n = x.Revs[id].Parent, n+1 {
+		r, ok := x.Revs[id]
+		if !ok {
+			return false
+		}
+		if r.Deleted {
+			if _, has := y.Revs[id]; !has {
+				return true
+			}
+		}
+	}
+	return false
+}
+
 func TestVerif_C06_ISGR(t *testing.T) {
 	rec := kit.New("C06", "ISGR")
 	defer rec.Flush()
@@ -357,6 +409,9 @@ func TestVerif_C06_ISGR(t *testing.T) {
 				}
 			}
 			p.bgRuns = nil
+			if err := p.waitCaughtUp(t); err != nil {
+				infra(err)
+			}
 			const maxRuns = 6
 			runs := 0
 			for {
@@ -399,7 +454,7 @@ func TestVerif_C06_ISGR(t *testing.T) {
 					infra(err)
 				}
 				rec.Class("agreement_checks", 1)
-				if vfC06LostTombstone(a, b) || vfC06LostTombstone(b, a) {
+				if vfC06LostTombstone(a, b) || vfC06LostTombstone(b, a) || vfC06ResurrectedOnLostTombstone(a, b) || vfC06ResurrectedOnLostTombstone(b, a) {
 					if kit.Known("C06", vfC06SigLostTombstone) {
 						rec.Excluded(vfC06SigLostTombstone)
 						ops = append(ops, "known-finding:"+vfC06SigLostTombstone+"("+id+")")
